@@ -8,7 +8,9 @@
 (*   errs   errs[id] = abstract error [name, file, line, col, method, msg, det, tb, sev]        *)
 (*   cmps   [l, r, res]: errors._compare_traceback_strings on two traceback strings (as frame   *)
 (*          sequences); res = "eq" | "gt" | "lt" | "none"                                       *)
-(*   cases  [f, from, steps |-> << [o, b] >>]                                                   *)
+(*   cases  [f, from, steps |-> << [o, b] >>, alts |-> << [o, b] >>]                              *)
+(*          steps = a history; alts = alternative LAST steps after it (the transitions that     *)
+(*          leave the model state reached by the history: the prefix is walked once)            *)
 (*          o = the operation (the record of ErrorLog.tla's hist)                               *)
 (*          b = the real state after it:                                                        *)
 (*              log   ids of list(log)            caps  ids of cp.errors per closed checkpoint  *)
@@ -19,8 +21,9 @@
 (*              ix    per entry of rep its index in the log BY IDENTITY (0 = not in the log)    *)
 (*              ur    per entry of the log the class of the real get_unique_representation()    *)
 (*              exc   "" or the exception that escaped the operation (the history ends there)   *)
-(*          from: verdicts are computed for the steps from .. Len(steps) (the earlier steps are  *)
-(*          the last steps of other cases: every transition of the model is a case of its own)   *)
+(*          from: verdicts are computed for the steps from .. Len(steps) and for every alt (the  *)
+(*          steps of a prefix are alts of other cases: every transition of the model is an alt)  *)
+(*          BAD/DIV/COV lines carry k: k <= Len(steps) = that step, otherwise alt k - Len(steps) *)
 (*                                                                                              *)
 (* The spec state is advanced by ErrorLog's own actions (a history that is not a behaviour of   *)
 (* the spec blocks the walk: Done fails).  Next to it the trace keeps, per open checkpoint, the  *)
@@ -70,11 +73,10 @@ Apply(o) ==
     [] o.op = "copy" -> CopyFrom(o.c, o.s)
     [] o.op = "report" -> Report
 
-(* the step n of case c, judged on the real states before (pre) and after (post) it *)
-Judge(c, n) ==
-  LET o == c.steps[n].o
-      post == c.steps[n].b
-      pre == IF n = 1 THEN Obs0 ELSE c.steps[n - 1].b
+(* one step st = [o, b] judged on the real states before (pre) and after (st.b) it *)
+Judge(pre, st) ==
+  LET o == st.o
+      post == st.b
       preL == ErrSeq(pre.log)
       postL == ErrSeq(post.log)
       preC == CapsOf(pre.caps)
@@ -134,12 +136,10 @@ Judge(c, n) ==
              \cup If(Len(R) < Len(postL), "deduplicated")
   IN [f |-> fails, d |-> notes, v |-> cov]
 
-RcpsAfter(c, n) ==
-  LET o == c.steps[n].o
-      post == c.steps[n].b
-      pre == IF n = 1 THEN Obs0 ELSE c.steps[n - 1].b
+RcpsAfter(pre, st) ==
+  LET o == st.o
       preL == ErrSeq(pre.log)
-      postL == ErrSeq(post.log)
+      postL == ErrSeq(st.b.log)
       expected == IF o.op = "add" THEN (IF Passes(o.e, filter) THEN <<o.e>> ELSE <<>>)
                   ELSE Keep(MappedSeq(CapsOf(pre.caps)[o.c], o.s), filter)
       suffix == SubSeq(postL, Len(preL) + 1, Len(postL))
@@ -158,22 +158,42 @@ TInit == /\ fam = [Base EXCEPT !.name = "trace"]
          /\ i = 1 /\ k = 0 /\ rcps = <<>> /\ verd = NoVerd
          /\ TLCSet(1, FALSE)
 
+PreOf(c, n) == IF n = 0 THEN Obs0 ELSE c.steps[n].b       \* the real state after n steps
+
+(* the common prefix of the case, one step at a time *)
 Step ==
   /\ i <= Len(Cases) /\ k < Len(Cases[i].steps)
-  /\ Apply(Cases[i].steps[k + 1].o)
+  /\ LET c == Cases[i]
+         st == c.steps[k + 1] IN
+       /\ Apply(st.o)
+       /\ rcps' = RcpsAfter(PreOf(c, k), st)
+       /\ verd' = IF k + 1 >= c.from THEN Judge(PreOf(c, k), st) ELSE NoVerd
   /\ pend' = pend
-  /\ rcps' = RcpsAfter(Cases[i], k + 1)
-  /\ verd' = IF k + 1 >= Cases[i].from THEN Judge(Cases[i], k + 1) ELSE NoVerd
   /\ k' = k + 1 /\ i' = i
 
-NextCase ==
+(* the alternative last steps of the case: every one is judged from the state after the prefix *)
+Alt ==
   /\ i <= Len(Cases) /\ k = Len(Cases[i].steps)
+  /\ \E a \in 1 .. Len(Cases[i].alts) :
+       LET c == Cases[i]
+           st == c.alts[a] IN
+       /\ Apply(st.o)
+       /\ rcps' = RcpsAfter(PreOf(c, k), st)
+       /\ verd' = Judge(PreOf(c, k), st)
+       /\ k' = k + a
+  /\ pend' = pend
+  /\ i' = i
+
+NextCase ==
+  /\ i <= Len(Cases)
+  /\ \/ k > Len(Cases[i].steps)
+     \/ k = Len(Cases[i].steps) /\ Len(Cases[i].alts) = 0
   /\ i' = i + 1 /\ k' = 0 /\ rcps' = <<>> /\ verd' = NoVerd
   /\ log' = <<>> /\ cps' = <<>> /\ closed' = <<>> /\ filter' = {} /\ rep' = NoRep /\ hist' = <<>>
   /\ UNCHANGED <<fam, pend>>
   /\ (i' > Len(Cases) => TLCSet(1, TRUE))
 
-TNext == Step \/ NextCase
+TNext == Step \/ Alt \/ NextCase
 
 CmpOk ==
   \A x \in DOMAIN Cmps :
